@@ -3,7 +3,7 @@ import random
 
 import families
 import oracle
-from common import dump, fail, make_sd, net_info, run_history, run_step
+from common import check_cache, dump, fail, make_sd, net_info, run_history, run_step
 
 BOUND = ("networks with <= 6(7) variables (exhaustive 1-variable, sampled 2-variable, seeded random) and hand-built networks with <= 9 variables; seeded history H1 of 0-5 "
          "arbitrary calls (all strategies, queries on stubs, skipping), then pickle round trip / reclaim_node_data / both on one diagram and nothing on its twin, "
@@ -45,8 +45,42 @@ def shape_cases(seed, tier):
                "transform": rng.choice(TRANSFORMS), "h2": families.random_history(rng.randrange(1 << 30), names, rng.randint(1, 4), OPS1)}
 
 
+def lone_candidate_cases(seed, tier):
+    """shape added after the seeded-change review: an EXPANDED, NON-minimal node whose candidate list was computed (cheap search: simulation / greedy
+    minification switched off, or the default search on a motif-avoidant network) and consists of exactly one state while its seeds are still
+    unknown; then reclaim_node_data (with / without a pickle round trip); then seed / set queries on every node.  First the instance that revealed
+    the shape, then oscillator x marker networks and motif-avoidant networks under several expansion orders."""
+    expansions = [[["bfs", None, None, None]], [["dfs", None, None, None]], [["succ", 0], ["succ", 1], ["succ", 2], ["succ", 3]], [["min", None, None, False]],
+                  [["bfs", None, 1, None]], [["block", False, None, False, False]]]
+    transforms = [["reclaim"], ["reclaim", "pickle"], ["pickle", "reclaim"], ["reclaim", "reclaim"]]
+    maa = [(k, v) for k, v in families.maa_nets()] + [(k, v) for k, v in families.block_nets(seed, tier)][:40]
+    marker = list(families.marker_nets(seed, tier))
+    nets = []
+    for k, item in enumerate(marker):  # three marker networks, then one motif-avoidant network
+        nets.append((item, False))
+        if k % 3 == 2 and k // 3 < len(maa):
+            nets.append((maa[k // 3], True))
+    for k, ((name, bnet), genuine) in enumerate(nets):
+        rng = random.Random(f"{seed}-{name}-c16-lone")
+        for rnd in range(2):
+            first = k == 0 and rnd == 0
+            greedy, sim = (True, False) if first else ((True, True) if genuine and rng.random() < 0.7 else (rng.random() < 0.5, rng.random() < 0.15))
+            h1 = list(expansions[0] if first else rng.choice(expansions))
+            if first or rng.random() < 0.4:
+                h1.append(["seeds", 1 if first else rng.randint(1, 8), False])
+            ids = list(range(9))
+            if rnd:
+                rng.shuffle(ids)
+                ids = ids[: rng.randint(2, 9)]
+            h1 += [["cands", i, greedy, sim] for i in ids]
+            h2 = [["seeds", i, False] for i in range(9)] if rng.random() < 0.6 else [["sets", i] for i in range(9)]
+            if rng.random() < 0.3:
+                h2 = [["aseeds", None]] + h2
+            yield {"net": name, "bnet": bnet, "config": {}, "h1": h1, "transform": transforms[0] if first else rng.choice(transforms), "h2": h2}
+
+
 def cases(seed, tier):
-    yield from families.interleave((shape_cases(seed, tier), 1), (general_cases(seed, tier), 4))
+    yield from families.interleave((lone_candidate_cases(seed, tier), 1), (shape_cases(seed, tier), 1), (general_cases(seed, tier), 4))
 
 
 def general_cases(seed, tier):
@@ -91,6 +125,16 @@ def compare(a, b, when, tolerate_reclaim=True):
     return out
 
 
+def oracle_check(sd, net, when):
+    """brute force: whatever the transformed diagram holds as seeds / sets of a node are attractors the node owns under its current successors"""
+    out = []
+    for i in sd.node_ids():
+        for f in check_cache(sd, net, i, what=("seeds", "sets"), prefix="transformed_"):
+            f["detail"] = f"{when}: " + f["detail"]
+            out.append(f)
+    return out
+
+
 def check_with_info(case):
     net = oracle.Net.from_bnet(case["bnet"])
     info = net_info(net)
@@ -108,6 +152,7 @@ def check_with_info(case):
     for t in case["transform"]:
         a, _ = run_step(a, [t])
     out += compare(dump(a), d0, f"right after {case['transform']}")
+    out += oracle_check(a, net, f"right after {case['transform']}")
     cfg_out = []  # reported, but H2 is still run: a changed configuration must also show in a later call's behaviour when it matters
     if dict(a.config) != dict(b.config):
         diff = {k: (dict(a.config).get(k), dict(b.config).get(k)) for k in set(a.config) | set(b.config) if dict(a.config).get(k) != dict(b.config).get(k)}
@@ -124,6 +169,8 @@ def check_with_info(case):
             out.append(fail("later_call_differs", "every later query, expansion, attractor computation or control call gives the same answer as on the untouched diagram",
                             f"after {case['transform']}, H2 step {k} {step}", observed=ra, expected=rb))
         out += compare(dump(a), dump(b), f"after {case['transform']} and H2 step {k} {step}")
+        if step[0] in ("seeds", "sets", "aseeds"):
+            out += oracle_check(a, net, f"after {case['transform']} and H2 step {k} {step}")
     return cfg_out + out, info
 
 
